@@ -186,11 +186,11 @@ func keyHash(k string) string {
 
 type mergeState struct {
 	evals, enumTotal, enumDone, sampledPlan, sampledDone int
-	distinct                                              map[uint64]struct{}
-	faults, probes                                        map[string]int
-	simSeconds                                            float64
-	found                                                 map[string]*Found
-	samples                                               []any
+	distinct                                             map[uint64]struct{}
+	faults, probes                                       map[string]int
+	simSeconds                                           float64
+	found                                                map[string]*Found
+	samples                                              []any
 }
 
 func newMerge() *mergeState {
